@@ -444,3 +444,8 @@ MUTANTS += [
     dict(name="revert_fix_pcovcur_warm_stale_refs", prop="C08", file=SEL, count=1,
          old="        self.X_ref_ = X\n        self.y_ref_ = y\n        for c in self.selected_idx_:", new="        for c in self.selected_idx_:"),
 ]
+
+MUTANTS += [
+    dict(name="revert_fix_pcovr_covariance_relative_rcond", prop=["C03", "C14"], file="src/skmatter/utils/_pcovr_utils.py", count=1,
+         old="            rcond = rcond * max(1.0, vC[0])\n", new=""),
+]
